@@ -1,30 +1,30 @@
-SPECIFICATION FileSpec
+SPECIFICATION MCSpec
 CONSTANTS
   SetupIds = {1}
   RegIds = {1,2,3}
   FileIds = {1,2,3}
-  CliIds = {1}
+  CliIds = {1,2,3,4}
   SrvIds = {1,2}
   TrackObs = FALSE
   TrackDeps = FALSE
   Dev = "none"
-  SetupPlan <- File_SetupPlan
-  RegPlan <- File_RegPlan
-  RegIdus <- File_RegIdus
-  RegIdss <- File_RegIdss
-  RegKsfs <- File_RegKsfs
-  CliPw <- File_CliPw
-  SrvSetups <- File_SrvSetups
-  SrvRecs <- File_SrvRecs
-  SrvCids <- File_SrvCids
-  SrvCtxs <- File_SrvCtxs
-  SrvIdus <- File_SrvIdus
-  SrvIdss <- File_SrvIdss
-  CliCtxs <- File_CliCtxs
-  CliIdus <- File_CliIdus
-  CliIdss <- File_CliIdss
-  CliKsfs <- File_CliKsfs
-  MutPlan <- File_MutPlan
+  SetupPlan <- Pw_SetupPlan
+  RegPlan <- Pw_RegPlan
+  RegIdus <- Pw_RegIdus
+  RegIdss <- Pw_RegIdss
+  RegKsfs <- Pw_RegKsfs
+  CliPw <- Pw_CliPw
+  SrvSetups <- Pw_SrvSetups
+  SrvRecs <- Pw_SrvRecs
+  SrvCids <- Pw_SrvCids
+  SrvCtxs <- Pw_SrvCtxs
+  SrvIdus <- Pw_SrvIdus
+  SrvIdss <- Pw_SrvIdss
+  CliCtxs <- Pw_CliCtxs
+  CliIdus <- Pw_CliIdus
+  CliIdss <- Pw_CliIdss
+  CliKsfs <- Pw_CliKsfs
+  MutPlan <- Pw_MutPlan
   Splice = FALSE
   Reloads = FALSE
   ExtFail = FALSE
@@ -41,5 +41,5 @@ INVARIANT ReportedKeyIsSetupKey
 INVARIANT Oblivious
 INVARIANT ExportKeySeparated
 INVARIANT NoSecretOnWire
-INVARIANT AcceptedOnlyOnWholeFile
+INVARIANT BothPasswordsBound
 CHECK_DEADLOCK FALSE
